@@ -189,7 +189,36 @@ contract(
 )
 
 
+def _mdr_native(args):
+    import numpy as np
+    from pyvc.native import repo_module
+    pe = repo_module("pyerrors.obs")
+    la = repo_module("pyerrors.linalg")
+    noise = np.array([0.01, -0.01, 0.02, -0.02, 0.005, -0.005])
+    mats = []
+    for v in args["operands"]:
+        m = np.empty(v.shape, dtype=object)
+        for idx in np.ndindex(*v.shape):
+            m[idx] = pe.Obs([v[idx] + noise], ["e"])
+        mats.append(m)
+    res = la.matmul(*mats)
+    return np.vectorize(lambda o: o.value)(res).astype(float)
+
+
+def _mdr_gen(rng, case):
+    import numpy as np
+    k = 2 if case["operands"] == "two" else 3
+    r = np.random.default_rng(rng.randint(0, 10 ** 6))
+    return dict(operands=[r.normal(size=(2, 2)) for _ in range(k)])
+
+
 def _mdr_post(a, r):
+    if not isinstance(a.operands, CList):
+        import numpy as np
+        prod = a.operands[0]
+        for m in a.operands[1:]:
+            prod = prod @ m
+        return {"ordered product": bool(np.allclose(r, prod, rtol=1e-10, atol=1e-12))}
     ops = a.operands.items
     t = ops[0].t
     for o in ops[1:]:
@@ -203,7 +232,7 @@ contract(
                                three=Custom(lambda n, c, s: CList([fresh_mat("op%d" % j, 2) for j in range(3)], "list")))),
     ensures=_mdr_post,
     axioms=axioms,
-    native_ok=False, crosscheck=False, refute=False,
+    native_call=_mdr_native, gen=_mdr_gen, crosscheck=False, refute=False,
     note="nested function of matmul (real branch): the operands are multiplied in the given order",
 )
 
